@@ -2119,7 +2119,8 @@ class EntityDef:
         # Make it look pretty: BaseClass
         file.write(f'@{self.type.value.title().replace("class", "Class")} ')
         if self.bases:
-            file.write('base(')
+            # aliasof() is parsed like base(), additionally marking the entity as an alias.
+            file.write('aliasof(' if self.is_alias and custom_syntax else 'base(')
             file.write(', '.join([
                 (base.classname if isinstance(base, EntityDef) else base)
                 for base in self.bases
